@@ -18,12 +18,13 @@
 //     events Name / Libid in stream order; `ev_names`; `refs_fold` (a Name starts a reference, a libid with a description re-describes the
 //     reference under way; 2.1.1.8: the description is the last '#'-separated field).
 //
-// Clauses: C16.empty_rgce, ref3d_text, area3d_text, referr3d_text, areaerr3d_text, other_tokens_name_no_sheet, defined_name_never_err;
+// Clauses: C16.empty_rgce, ref3d_text, area3d_text (relative and absolute coordinates), referr3d_text, areaerr3d_text,
+//   other_tokens_name_no_sheet, defined_name_err_iff_first_token_truncated, truncated_token_is_len_error;
 //   C16.xls_defined_names_one_per_lbl_in_order (+ lbl_records_collected_in_order, xti_table_collected_in_order,
 //   defined_name_prefixed_with_its_sheet); C18.reference_names_in_order, reference_descriptions_from_their_libids,
 //   reference_array_wellformed_if_ok, reference_array_consumed (+ skip_*, var_record*, check_*record* of the cursor helpers).
-// Registered findings (findings/names.json): C16 relative flags of the column field not decoded (3 marker assertions), C06 first token
-//   sliced without length check (3 marker assertions), C16 XTI.iSupBook ignored: external references listed under an own sheet (1).
+// Registered finding (findings/names.json): C16 XTI.iSupBook ignored: external references listed under an own sheet (1 marker assertion).
+//   Fixed: C06 first token sliced without length check; C16 relative flags of the column field not decoded.
 // parse_workbook is verified UNDER A HYPOTHESIS (`wb_hyp`, satisfiable: witness_wb_hyp) so that none of the implicit obligations that
 //   unit xlswb registers as C06 findings for its unconditional copy fails here a second time; Reference::from_stream needs no hypothesis
 //   (the current text checks every read).
@@ -186,19 +187,30 @@ pub open spec fn cell_text(cf: int, row: int) -> Seq<char> {
 pub open spec fn ref3d_text(r: Seq<u8>) -> Seq<char> { cell_text(u16_at(r, 5), u16_at(r, 3)) }
 /// PtgArea3d: ptg (1 byte), ixti (2), area = rowFirst (2), rowLast (2), columnFirst (2), columnLast (2)   -- 11 bytes
 pub open spec fn area3d_text(r: Seq<u8>) -> Seq<char> { cell_text(u16_at(r, 7), u16_at(r, 3)) + seq![':'] + cell_text(u16_at(r, 9), u16_at(r, 5)) }
-pub open spec fn absolute_cf(f: int) -> bool { !col_relative(f) && !row_relative(f) }
 /// the result of parse_defined_names: Ok, with this sheet-table index and this text
 pub open spec fn dn_is(res: Result<(Option<usize>, String), XlsError>, ixti: Option<usize>, text: Seq<char>) -> bool {
     res matches Ok(p) && p.0 == ixti && p.1@ == text
+}
+/// the first token is cut off before the fields that are read from it (PtgRef3d: 7 bytes, PtgArea3d: 11; of the error tokens only ixti)
+pub open spec fn dn_truncated(r: Seq<u8>) -> bool {
+    r.len() >= 1 && ((is_ref3d(r[0]) && r.len() < 7) || (is_area3d(r[0]) && r.len() < 11) || ((is_referr3d(r[0]) || is_areaerr3d(r[0])) && r.len() < 3))
 }
 
 proof fn lemma_u16_at(g: Seq<u8>, a: int)
     requires 0 <= a, a + 2 <= g.len(),
     ensures le16(g.subrange(a, a + 2)) == u16_at(g, a), 0 <= u16_at(g, a) < 65536,
 {}
-proof fn lemma_absolute_fields(f: u16)
-    ensures absolute_cf(f as int) <==> f < 16384, f < 16384 ==> col_of(f as int) == f,
-{}
+/// the masks of the column field are its three parts
+proof fn lemma_flag_bits(f: u16)
+    ensures
+        (f & 0x4000 == 0) == !col_relative(f as int),
+        (f & 0x8000 == 0) == !row_relative(f as int),
+        (f & 0x3FFF) as int == col_of(f as int),
+{
+    assert((f & 0x4000 == 0) == ((f / 16384) % 2 != 1)) by (bit_vector);
+    assert((f & 0x8000 == 0) == (f / 32768 != 1)) by (bit_vector);
+    assert((f & 0x3FFF) == f % 16384) by (bit_vector);
+}
 
 //@@ fn src/xls.rs parse_defined_names props=C16 entry ret=res
 //@@ replace /format!\("\{\}", (.*?)\)\);/#0of3 `format!("{}", n)` is outside Verus: the expression is moved into a trusted wrapper whose body is the same expression (argument verbatim)
@@ -211,18 +223,16 @@ verif_dec_u32(\g<1>));
 verif_opaque_string()
 //@@ sig
     ensures
-        //# C16.defined_name_never_err
-        res is Ok,
+        //# C16.defined_name_err_iff_first_token_truncated
+        res is Err <==> dn_truncated(rgce@),
+        //# C16.truncated_token_is_len_error
+        res is Err ==> (res matches Err(XlsError::Len { expected, found, typ }) && found == rgce@.len()),
         //# C16.empty_rgce
         rgce@.len() == 0 ==> dn_is(res, None, "empty rgce"@),
-        // (the two reference clauses are stated for absolute references; a relative reference is the registered finding
-        //  C16.ref3d_relative_flags_not_decoded / C16.area3d_relative_flags_not_decoded: the format asks for `ref3d_text` / `area3d_text`
-        //  there as well -- column letters of the low 14 bits, `$` only in front of absolute coordinates -- and the code has no such case)
         //# C16.ref3d_text
-        rgce@.len() >= 7 && is_ref3d(rgce@[0]) && absolute_cf(u16_at(rgce@, 5)) ==> dn_is(res, Some(u16_at(rgce@, 1) as usize), ref3d_text(rgce@)),
+        rgce@.len() >= 7 && is_ref3d(rgce@[0]) ==> dn_is(res, Some(u16_at(rgce@, 1) as usize), ref3d_text(rgce@)),
         //# C16.area3d_text
-        rgce@.len() >= 11 && is_area3d(rgce@[0]) && absolute_cf(u16_at(rgce@, 7)) && absolute_cf(u16_at(rgce@, 9))
-            ==> dn_is(res, Some(u16_at(rgce@, 1) as usize), area3d_text(rgce@)),
+        rgce@.len() >= 11 && is_area3d(rgce@[0]) ==> dn_is(res, Some(u16_at(rgce@, 1) as usize), area3d_text(rgce@)),
         //# C16.referr3d_text
         rgce@.len() >= 7 && is_referr3d(rgce@[0]) ==> dn_is(res, Some(u16_at(rgce@, 1) as usize), "#REF!"@),
         //# C16.areaerr3d_text
@@ -231,75 +241,41 @@ verif_opaque_string()
         rgce@.len() >= 1 && !is_ref3d(rgce@[0]) && !is_area3d(rgce@[0]) && !is_referr3d(rgce@[0]) && !is_areaerr3d(rgce@[0]) ==> (res matches Ok(p) && p.0 is None),
 //@@ body
     let ghost g = rgce@;
-//@@ before /let ixti = /#0of3
-            proof {
-                // PtgRef3d is 7 bytes (ptg, ixti, row, column); only `rgce.is_empty()` was tested
-                //# C06.ref3d_token_truncated
-                assert(g.len() >= 7);
-            }
-//@@ before /let ixti = /#1of3
-            proof {
-                // PtgArea3d is 11 bytes (ptg, ixti, rowFirst, rowLast, columnFirst, columnLast)
-                //# C06.area3d_token_truncated
-                assert(g.len() >= 11);
-            }
-//@@ before /let ixti = /#2of3
-            proof {
-                // PtgRefErr3d / PtgAreaErr3d: ixti is read from bytes 1..3
-                //# C06.err3d_token_truncated
-                assert(g.len() >= 3);
-            }
+    proof {
+        if g.len() >= 7 { lemma_u16_at(g, 1); lemma_u16_at(g, 3); lemma_u16_at(g, 5); lemma_flag_bits(u16_at(g, 5) as u16); }
+        if g.len() >= 11 { lemma_u16_at(g, 7); lemma_u16_at(g, 9); lemma_flag_bits(u16_at(g, 7) as u16); lemma_flag_bits(u16_at(g, 9) as u16); }
+    }
 //@@ before /push_column\(/#0of3
             let ghost c0 = f@;
 //@@ after /push_column\([^;]*;/#0of3
-            proof { if g.len() >= 7 { lemma_u16_at(g, 5); lemma_pushed_column(c0, f@, u16_at(g, 5) as u32); } }
+            proof { lemma_pushed_column(c0, f@, col_of(u16_at(g, 5)) as u32); }
 //@@ before /\(Some\(ixti\), f\)/#0of2
             proof {
-                if g.len() >= 7 {
-                    lemma_u16_at(g, 1); lemma_u16_at(g, 3);
-                    // the code pushes the whole 16-bit column field and an unconditional `$`: right exactly when both relative flags are 0
-                    //# C16.ref3d_relative_flags_not_decoded
-                    assert(absolute_cf(u16_at(g, 5)));
-                    lemma_absolute_fields(u16_at(g, 5) as u16);
-                    //# C16.ref3d_text
-                    assert(f@ =~= ref3d_text(g));
-                }
+                //# C16.ref3d_text
+                assert(f@ =~= ref3d_text(g));
             }
 //@@ before /push_column\(/#1of3
             let ghost c0 = f@;
 //@@ after /push_column\([^;]*;/#1of3
-            proof { if g.len() >= 11 { lemma_u16_at(g, 7); lemma_pushed_column(c0, f@, u16_at(g, 7) as u32); } }
+            proof { lemma_pushed_column(c0, f@, col_of(u16_at(g, 7)) as u32); }
 //@@ before /push_column\(/#2of3
             let ghost c2 = f@;
 //@@ after /push_column\([^;]*;/#2of3
-            proof { if g.len() >= 11 { lemma_u16_at(g, 9); lemma_pushed_column(c2, f@, u16_at(g, 9) as u32); } }
+            proof { lemma_pushed_column(c2, f@, col_of(u16_at(g, 9)) as u32); }
 //@@ before /f\.push\(':'\);/
             let ghost p1 = f@;
             proof {
-                if g.len() >= 11 {
-                    lemma_u16_at(g, 3);
-                    // the code pushes the whole 16-bit column field and an unconditional `$`: right exactly when both relative flags are 0
-                    //# C16.area3d_relative_flags_not_decoded
-                    assert(absolute_cf(u16_at(g, 7)));
-                    lemma_absolute_fields(u16_at(g, 7) as u16);
-                    //# C16.area3d_text
-                    assert(p1 =~= cell_text(u16_at(g, 7), u16_at(g, 3)));
-                }
+                //# C16.area3d_text
+                assert(p1 =~= cell_text(u16_at(g, 7), u16_at(g, 3)));
             }
 //@@ before /\(Some\(ixti\), f\)/#1of2
             proof {
-                if g.len() >= 11 {
-                    lemma_u16_at(g, 1); lemma_u16_at(g, 5);
-                    //# C16.area3d_relative_flags_not_decoded
-                    assert(absolute_cf(u16_at(g, 9)));
-                    lemma_absolute_fields(u16_at(g, 9) as u16);
-                    //# C16.area3d_text
-                    assert(f@ =~= p1.push(':') + cell_text(u16_at(g, 9), u16_at(g, 5)));
-                    assert(p1.push(':') =~= p1 + seq![':']);
-                }
+                //# C16.area3d_text
+                assert(f@ =~= p1.push(':') + cell_text(u16_at(g, 9), u16_at(g, 5)));
+                assert(p1.push(':') =~= p1 + seq![':']);
             }
 //@@ before /\(Some\(ixti\), "/
-            proof { if g.len() >= 3 { lemma_u16_at(g, 1); } }
+            proof { lemma_u16_at(g, 1); }
 //@@ end
 
 
